@@ -154,6 +154,7 @@ pub fn generate(r: &mut Rng, tier: Tier) -> Scenario {
         history: vec![],
         t2: t2spec,
         content_faults: vec![],
+        expected_levels: std::collections::BTreeMap::new(),
         note: format!("shape={shape_note} gen={g:?} cut={c:?}"),
     }
 }
